@@ -689,7 +689,11 @@ func execInspect() vlib.Res {
 	v := wire.VerifInspectPool(3)
 	or := "ok"
 	if v != "clean" {
-		or = "FAIL sig=pool/release-left/" + v
+		sig := v
+		if strings.HasPrefix(v, "dictionary-holds-") {
+			sig = "dictionary-not-empty" // the count goes into the detail, not the signature
+		}
+		or = "FAIL sig=pool/release-left/" + sig + " " + v
 	}
 	return vlib.Res{Impl: v, Oracle: or, Tags: "nt"}
 }
